@@ -315,9 +315,59 @@ fn write_side(tier: Tier, acc_out: &mut Acc) -> Value {
     json!({"maps": files.len(), "all_output_offsets_up_to_bytes": dense, "faults": ["Err(kind) x5", "one-off Err then working again", "Ok(0)", "failing flush x5", "flush interrupted once / three times", "short writes 1/2/7/16", "Interrupted at every write call"]})
 }
 
+/// Path entry points: a path that can be opened but not read (a directory), a missing file, a path that cannot be
+/// written (a directory, /dev/full): every one must give an error, never a default map or Ok(()).
+fn path_entry_points(acc: &mut Acc) -> Value {
+    let dir = std::env::temp_dir().join(format!("rmc-c09-dir-{}", std::process::id()));
+    let _ = std::fs::create_dir_all(&dir);
+    let missing = dir.join("no-such-file.osu");
+    let mut cases = 0u64;
+    let mut bad = |what: String, acc: &mut Acc| {
+        acc.violation(Violation::new("path-fault-swallowed", what, json!({"kind": "path"})));
+    };
+    for (label, path) in [("a directory", dir.clone()), ("a missing file", missing)] {
+        cases += 3;
+        acc.evals += 3;
+        acc.transitions += 3;
+        match guarded(|| rosu_map::from_path::<Beatmap>(&path).map(|m| m.format_version)) {
+            Ok(Err(_)) => {}
+            other => bad(format!("rosu_map::from_path::<Beatmap>({label}) = {other:?}, expected an error"), acc),
+        }
+        match guarded(|| Beatmap::from_path(&path).map(|m| m.format_version)) {
+            Ok(Err(_)) => {}
+            other => bad(format!("Beatmap::from_path({label}) = {other:?}, expected an error"), acc),
+        }
+        match guarded(|| rosu_map::from_path::<Trace>(&path).map(|t| t.version)) {
+            Ok(Err(_)) => {}
+            other => bad(format!("from_path::<trace decoder>({label}) = {other:?}, expected an error"), acc),
+        }
+    }
+    let mut targets = vec![("a directory", dir.clone())];
+    if std::path::Path::new("/dev/full").exists() {
+        targets.push(("/dev/full", std::path::PathBuf::from("/dev/full")));
+    }
+    for (label, path) in targets {
+        for (name, bytes) in write_pool().into_iter().filter(|(n, _)| n.starts_with("synthetic")) {
+            let Ok(mut map) = rosu_map::from_bytes::<Beatmap>(&bytes) else { continue };
+            cases += 1;
+            acc.evals += 1;
+            acc.transitions += 1;
+            match guarded(|| map.encode_to_path(&path)) {
+                Ok(Err(_)) => {}
+                other => bad(format!("encode_to_path({label}) of {name} = {other:?}, expected an error"), acc),
+            }
+        }
+    }
+    let _ = std::fs::remove_dir_all(&dir);
+    json!({"cases": cases, "read": ["directory", "missing file"], "write": ["directory", "/dev/full if present"]})
+}
+
 pub fn replay(case: &Value) -> Vec<Violation> {
     let mut acc = Acc::new();
     match case["kind"].as_str().unwrap_or("") {
+        "path" => {
+            path_entry_points(&mut acc);
+        }
         "read-fault" => {
             let name = case["file"].as_str().unwrap_or("?");
             let mut bytes = unhex(case["hex"].as_str().unwrap_or(""));
@@ -385,15 +435,16 @@ pub fn run(tier: Tier) -> i32 {
     run_witnesses("C09", &mut acc, &replay);
     let r = read_side(tier, &mut acc);
     let w = write_side(tier, &mut acc);
+    let pe = path_entry_points(&mut acc);
     let summary = Summary {
         rule: "read side: every bundled file x 4 encodings x every byte offset 0..=len (dense up to a size limit, else head/tail and \
                line boundaries +-1) x 5 error kinds x chunkings {whole,1,7}: decode must return Err of exactly that kind, never Ok, \
                never panic (trace decoder everywhere, full Beatmap decoder on small files); every placement of one Interrupted (and \
-               every pair on tiny files) must give the fault-free result. write side: every map (bundled files and four maps with empty sections, incl. the default map) x every output offset x \
+               every pair on tiny files) must give the fault-free result. path entry points: from_path on a directory / a missing file and encode_to_path into a directory or /dev/full must fail. write side: every map (bundled files and four maps with empty sections, incl. the default map) x every output offset x \
                {Err(kind), Ok(0)}, failing flush, short writes, Interrupted at every write call: hard fault => Err of that kind \
                (WriteZero for Ok(0)), transient => Ok with identical bytes. Non-trivial/distinct = distinct (file, fault offset)"
             .into(),
-        bounds: json!({"read": r, "write": w}),
+        bounds: json!({"read": r, "write": w, "path_entry_points": pe}),
         exhaustive: true,
         caps_hit: vec![],
         assumptions: vec![
